@@ -130,6 +130,109 @@ namespace c10
         C10_POST1()
     }
 
+    // ---- aliasing: the right operand of a compound assignment is (or refers to) the left operand itself ----
+    // all of them take ONE operand (a,b); the harness judges them as (a,b) OP (a,b) resp. (a,b) OP (a|b, 0)
+#define C10_ALIAS_OUT(Z)                                                                                \
+    io.out[0] = (Z).real(); io.out[1] = (Z).imag();                                                     \
+    for (int i = 0; i < 4; ++i) { io.post[i] = io.in[i]; io.stor[i] = io.in[i]; }
+
+    // reference: the binary operator on two separate copies of the operand
+    template <class T, class Op, bool B1, bool B2>
+    void v_alias_base(IO<T>& io)
+    {
+        typename XK<T, KV, B1>::type x(io.in[0], io.in[1]);
+        typename XK<T, KV, B2>::type y(io.in[0], io.in[1]);
+        auto z = Op::bin(x, y);
+        C10_ALIAS_OUT(z)
+    }
+    // z OP= z, the same object on both sides (value closure, or reference closure over local storage)
+    template <class T, class Op, int K1, bool B1>
+    void v_alias_self(IO<T>& io)
+    {
+        T sa = io.in[0], sb = io.in[1];
+        typename XK<T, K1, B1>::type x(sa, sb);
+        auto& r = Op::cmpd(x, x);
+        if (std::addressof(r) != std::addressof(x)) io.flags |= F_RETREF;
+        C10_ALIAS_OUT(x)
+        if (K1 == KR) { io.stor[0] = sa; io.stor[1] = sb; } else { io.stor[0] = x.real(); io.stor[1] = x.imag(); }
+    }
+    // z OP= r, r a (const) reference closure over z's own parts
+    template <class T, class Op, bool B1, int K2, bool B2>
+    void v_alias_rhsref(IO<T>& io)
+    {
+        typename XK<T, KV, B1>::type z(io.in[0], io.in[1]);
+        typename XK<T, K2, B2>::type r(z.real(), z.imag());
+        auto& ret = Op::cmpd(z, r);
+        if (std::addressof(ret) != std::addressof(z)) io.flags |= F_RETREF;
+        C10_ALIAS_OUT(z)
+    }
+    // r OP= z, r a reference closure over the parts of the value z
+    template <class T, class Op, bool B1, bool B2>
+    void v_alias_lhsref(IO<T>& io)
+    {
+        typename XK<T, KV, B2>::type z(io.in[0], io.in[1]);
+        typename XK<T, KR, B1>::type r(z.real(), z.imag());
+        auto& ret = Op::cmpd(r, z);
+        if (std::addressof(ret) != std::addressof(r)) io.flags |= F_RETREF;
+        C10_ALIAS_OUT(z)
+    }
+    // r OP= r2, two distinct closures over the same storage
+    template <class T, class Op, bool B1, int K2, bool B2>
+    void v_alias_ref2(IO<T>& io)
+    {
+        T sa = io.in[0], sb = io.in[1];
+        typename XK<T, KR, B1>::type r(sa, sb);
+        typename XK<T, K2, B2>::type r2(sa, sb);
+        auto& ret = Op::cmpd(r, r2);
+        if (std::addressof(ret) != std::addressof(r)) io.flags |= F_RETREF;
+        C10_ALIAS_OUT(r)
+        io.stor[0] = sa; io.stor[1] = sb;
+    }
+    // reference for the scalar forms: x OP s with s a copy of the real (PART = 0) / imaginary (PART = 1) part
+    template <class T, class Op, bool B1, int PART>
+    void v_alias_sbase(IO<T>& io)
+    {
+        typename XK<T, KV, B1>::type x(io.in[0], io.in[1]);
+        T s = io.in[PART];
+        auto z = Op::bin(x, s);
+        C10_ALIAS_OUT(z)
+    }
+    // z OP= z.real() / z OP= z.imag(): the scalar is a reference to a part of the left operand
+    template <class T, class Op, int K1, bool B1, int PART>
+    void v_alias_spart(IO<T>& io)
+    {
+        T sa = io.in[0], sb = io.in[1];
+        typename XK<T, K1, B1>::type x(sa, sb);
+        auto& r = PART == 0 ? Op::cmpd(x, x.real()) : Op::cmpd(x, x.imag());
+        if (std::addressof(r) != std::addressof(x)) io.flags |= F_RETREF;
+        C10_ALIAS_OUT(x)
+        if (K1 == KR) { io.stor[0] = sa; io.stor[1] = sb; } else { io.stor[0] = x.real(); io.stor[1] = x.imag(); }
+    }
+
+    // ---- mixed value types: == and != between xcomplex over different arithmetic types ----------------
+    typedef float ty_F;
+    typedef double ty_D;
+    typedef int ty_I;
+    typedef long double ty_L;
+    template <class T1, int K1, bool B1, class T2, int K2, bool B2, bool NE>
+    bool m_cmp(const long double in[4])
+    {
+        T1 sa = static_cast<T1>(in[0]), sb = static_cast<T1>(in[1]);
+        T2 sc = static_cast<T2>(in[2]), sd = static_cast<T2>(in[3]);
+        typename XK<T1, K1, B1>::type x(sa, sb);
+        typename XK<T2, K2, B2>::type y(sc, sd);
+        return NE ? (x != y) : (x == y);
+    }
+    // binary arithmetic between different value types (ill-formed on the pinned tree; explored if it ever compiles)
+    template <class T1, class T2, class Op>
+    void m_bin(const long double in[4], long double out[2])
+    {
+        typename XK<T1, KV, false>::type x(static_cast<T1>(in[0]), static_cast<T1>(in[1]));
+        typename XK<T2, KV, false>::type y(static_cast<T2>(in[2]), static_cast<T2>(in[3]));
+        auto z = Op::bin(x, y);
+        out[0] = z.real(); out[1] = z.imag();
+    }
+
     // operands arrive as std::complex, are converted to xcomplex, combined, and converted back
     template <class T, class Op, bool B>
     void v_std(IO<T>& io)
